@@ -40,17 +40,89 @@ def ndf(it, okey):
 
 # extents the LFRic infrastructure documents for the arrays the PSy layer hands to kernels
 CONTRACT = {
-    "get_whole_dofmap": [lambda it, o: it.fint(o, "ndf"), None, None],
     "get_nodes": [lambda it, o: z3.IntVal(3), lambda it, o: it.fint(o, "ndf")],
     "get_boundary_dofs": [lambda it, o: it.fint(o, "ndf"), lambda it, o: z3.IntVal(2)],
     "local_stencil": [lambda it, o: it.fint(o + "%fs_to", "ndf"), lambda it, o: it.fint(o + "%fs_from", "ndf"),
                       lambda it, o: it.store_scalar(o + "%ncell_3d")],
     "columnwise_matrix": [lambda it, o: it.store_scalar(o + "%bandwidth"), lambda it, o: it.store_scalar(o + "%nrow"),
-                          lambda it, o: it.store_scalar(o + "%ncell_2d")],
+                          lambda it, o: it.fint(o, "ncells_2d")],
     "weights_xy": [lambda it, o: it.store_scalar(o + "%np_xy")],
     "weights_z": [lambda it, o: it.store_scalar(o + "%np_z")],
-    "weights_xyz": [lambda it, o: it.store_scalar(o + "%np_xyz"), None],
+    "weights_xyz": [lambda it, o: it.store_scalar(o + "%np_xyz"),
+                    lambda it, o: it.store[o + "%nfaces"] if o + "%nfaces" in it.store else
+                    (it.store[o + "%nedges"] if o + "%nedges" in it.store else z3.Int("ext_any_" + o))],
+    "get_adjacent_face": [lambda it, o: it.fint(o.split("%mesh")[0], "number_horizontal_faces"), None],
+    # stencil maps: dofmap (ndf of the field's space, largest stencil, cells); sizes per cell never exceed it
+    "column_banded_dofmap_to": [lambda it, o: it.fint(o + "%fs_to", "ndf"), lambda it, o: it.fint(o + "%fs_to", "nlayers")],
+    "column_banded_dofmap_from": [lambda it, o: it.fint(o + "%fs_from", "ndf"),
+                                  lambda it, o: it.fint(o + "%fs_from", "nlayers")],
+    "indirection_dofmap_to": [lambda it, o: it.store_scalar(o + "%nrow")],
+    "indirection_dofmap_from": [lambda it, o: it.store_scalar(o + "%ncol")],
 }
+
+
+def owner_ndf(it, o):
+    """ndf of the function space an accessor object (stencil map, ...) was obtained from"""
+    return it.fint(o.split("%get_")[0], "ndf")
+
+
+def dofmap_dim2(it, o):
+    """2D stencil dofmaps: (ndf, longest branch, 4 branches, cells), longest branch = extent + 1"""
+    if "get_stencil_2d_dofmap" in o and it.obj_args.get(o) and len(it.obj_args[o]) > 1 and it.obj_args[o][1] is not None:
+        return it.obj_args[o][1] + 1
+    return z3.Int(f"ext_{o}%get_whole_dofmap_1")
+
+
+CONTRACT["get_whole_dofmap"] = [owner_ndf, dofmap_dim2,
+                                lambda it, o: z3.IntVal(4) if "get_stencil_2d_dofmap" in o else
+                                z3.Int(f"ext_{o}%get_whole_dofmap_2"), None]
+# arrays the reference element allocates and fills for the caller
+REF_ELEM_ARRAYS = {"get_normals_to_horizontal_faces": "number_horizontal_faces",
+                   "get_normals_to_vertical_faces": "number_vertical_faces",
+                   "get_normals_to_faces": "number_faces",
+                   "get_outward_normals_to_horizontal_faces": "number_horizontal_faces",
+                   "get_outward_normals_to_vertical_faces": "number_vertical_faces",
+                   "get_outward_normals_to_faces": "number_faces"}
+
+
+# dimension of a basis / differential-basis function per function space (user guide, kernel argument rules)
+BASIS_DIM = {"w0": 1, "w2trace": 1, "w2htrace": 1, "w2vtrace": 1, "w3": 1, "wtheta": 1, "wchi": 1,
+             "w1": 3, "w2": 3, "w2h": 3, "w2v": 3, "w2broken": 3, "any_w2": 3}
+DIFF_BASIS_DIM = {"w2": 1, "w2h": 1, "w2v": 1, "w2broken": 1, "any_w2": 1,
+                  "w0": 3, "w1": 3, "w2trace": 3, "w2htrace": 3, "w2vtrace": 3, "w3": 3, "wtheta": 3, "wchi": 3}
+
+
+def space_constraints(kerns):
+    """LFRic rule: within one kernel call the arguments declared on one function space share that space
+    (PSyclone takes ndf/undf/dofmaps from the first of them); returns z3 constraints over the contract's
+    integer names"""
+    cons = []
+    classes = {}
+    orig = {}
+    for k in kerns:
+        for a in k.arguments.args:
+            if a.argument_type in ("gh_field",) or a.is_field:
+                n = getattr(a, "vector_size", 1) or 1
+                okeys = [f"in_{a.name}"] if n == 1 else [f"in_{a.name}[{i + 1}]" for i in range(n)]
+                fs = a.function_space
+                for o in okeys:
+                    classes.setdefault(fs.mangled_name, []).append(o)
+                orig[fs.mangled_name] = fs.orig_name
+            elif a.is_operator:
+                for o, fs in ((f"in_{a.name}%fs_to", a.function_space_to), (f"in_{a.name}%fs_from", a.function_space_from)):
+                    classes.setdefault(fs.mangled_name, []).append(o)
+                    orig[fs.mangled_name] = fs.orig_name
+    for name, okeys in classes.items():
+        for what in ("ndf", "undf", "dim_space", "dim_space_diff"):
+            for o in okeys[1:]:
+                cons.append(z3.Int(f"{what}_{o}") == z3.Int(f"{what}_{okeys[0]}"))
+        sp = orig[name].lower()
+        for o in okeys:
+            if sp in BASIS_DIM:
+                cons.append(z3.Int(f"dim_space_{o}") == BASIS_DIM[sp])
+            if sp in DIFF_BASIS_DIM:
+                cons.append(z3.Int(f"dim_space_diff_{o}") == DIFF_BASIS_DIM[sp])
+    return cons
 
 
 class StubInterp(LfricInterp):
@@ -58,6 +130,46 @@ class StubInterp(LfricInterp):
         super().__init__(txt, K=1, E=2)
         self.summarise = True
         self.extent_contract = CONTRACT
+        self._StubInterp__init_hooks()
+
+    def __init_hooks(self):
+        base = self.extern_handler
+
+        def handler(self_, name, args, frame, g, base=base):
+            if "%" in name and name.rsplit("%", 1)[1] in REF_ELEM_ARRAYS and args:
+                from fparser.two import Fortran2003 as F
+                from vlib.fsym.interp import Binding, lname
+                obj, meth = name.rsplit("%", 1)
+                ob = self.lookup(obj, frame)
+                nm = lname(args[0])
+                b = frame.vars.get(nm)
+                if ob is None or b is None or not getattr(b, "is_pointer", False):
+                    raise Unsupported("reference-element array " + name)
+                self.fresh += 1
+                key = f"{self.prefix}alloc{self.fresh}_{nm}"
+                self.new_storage(key, b.tname, 2, is_input=True)
+                nb = Binding(nm, b.tname, key, rank=2,
+                             bounds=[(z3.IntVal(1), z3.IntVal(3)),
+                                     (z3.IntVal(1), self.fint(ob.key.split("%mesh")[0], REF_ELEM_ARRAYS[meth]))])
+                nb.is_pointer = True
+                frame.vars[nm] = nb
+                return True
+            return base(self_, name, args, frame, g)
+        self.extern_handler = handler
+
+    def contract_bounds(self, key, rank, okey, what):
+        bounds = super().contract_bounds(key, rank, okey, what)
+        if what == "get_stencil_sizes" and rank == 2:
+            self.assumptions.append(bounds[0][1] == 4)
+        if what == "get_stencil_sizes":
+            # every cell's stencil size fits in the stencil dofmap obtained from the same map object
+            c = z3.Int("c_any")
+            dm = dofmap_dim2(self, okey)
+            arr = self.store[key]
+            sel = z3.Select(arr, c) if rank == 1 else z3.Select(z3.Select(arr, z3.Int("b_any")), c)
+            qs = [c] if rank == 1 else [z3.Int("b_any"), c]
+            self.assumptions.append(z3.ForAll(qs, z3.And(sel >= 0, sel <= dm)))
+        return bounds
 
     def store_scalar(self, key):
         if key not in self.store:
@@ -74,7 +186,7 @@ def kernel_file(module_name, dirs):
     return None
 
 
-def decide_invoke(text, routine):
+def decide_invoke(text, routine, extra=()):
     """-> (status, detail, nobl, solver_s, reach)"""
     t0 = time.time()
     it = StubInterp(text)
@@ -89,8 +201,13 @@ def decide_invoke(text, routine):
         pass
     s = z3.Solver()
     s.set("timeout", 20000)
-    for a in list(it.assumptions) + list(it.bound_assumptions):
+    for a in list(it.assumptions) + list(it.bound_assumptions) + list(extra):
         s.add(a)
+    # one mesh per invoke: every function space has the same number of layers
+    for what in ("nlayers", "ncells_2d", "number_horizontal_faces", "number_vertical_faces", "number_faces"):
+        nl = [v for (o, w), v in it.field_ints.items() if w == what]
+        for v in nl[1:]:
+            s.add(v == nl[0])
     reach = str(s.check())
     nob = 0
     for dname, ob in it.conformance:
@@ -104,12 +221,55 @@ def decide_invoke(text, routine):
             m = s.model()
             vals = {str(d): str(m[d]) for d in m.decls() if str(d).startswith(("ndf_", "undf_", "in_", "ext_"))}
             s.pop()
-            return ("sat", f"{dname}: {z3.simplify(ob)}  fails for " + str(dict(list(vals.items())[:8])), nob,
+            ok = concrete_replay(text, routine, it, m, dname)
+            return ("sat" if ok else ("sat_norepro" if ok is False else "sat_unrep"),
+                    f"{dname}: {z3.simplify(ob)}  fails for " + str(dict(list(vals.items())[:8])), nob,
                     time.time() - t0, reach)
         s.pop()
         if r == "unknown":
             return "unknown", str(ob)[:200], nob, time.time() - t0, reach
     return "unsat", None, nob, time.time() - t0, reach
+
+
+def concrete_replay(text, routine, it, model, dname):
+    """re-run both generated texts with every size fixed to the witness (fsym concrete mode): the same dummy
+    must then be declared larger than the actual it receives"""
+    ic = StubInterp(text)
+    ic.concrete_inputs = {k: model.eval(t, model_completion=True) for k, t in it.inputs.items() if z3.is_expr(t)}
+    for k, v in it.field_ints.items():
+        ic.field_ints[k] = model.eval(v, model_completion=True)
+    try:
+        ic.run(routine)
+    except Unsupported:
+        return None
+    sk = [(l["skolem"], model.eval(l["skolem"], model_completion=True)) for l in ic.loops_seen]
+    for dn, ob in ic.conformance:
+        if dn != dname:
+            continue
+        v = z3.simplify(z3.substitute(ob, *sk)) if sk else z3.simplify(ob)
+        v = z3.simplify(model.eval(v, model_completion=True))
+        if z3.is_false(v):
+            return True
+    return False
+
+
+def work_meta(job):
+    """synthesised metadata: write kernel + algorithm into a scratch directory and run `work` on it"""
+    (name, ksrc, asrc), dm = job
+    d = tempfile.mkdtemp(prefix="c21_")
+    try:
+        with open(os.path.join(d, f"{name}_mod.f90"), "w", encoding="utf-8") as fh:
+            fh.write(ksrc)
+        alg = os.path.join(d, f"{name}_alg.f90")
+        with open(alg, "w", encoding="utf-8") as fh:
+            fh.write(asrc)
+        outs = work((alg, dm, [d]))
+        for o in outs:
+            if "replay_text" in o:
+                o["replay_text"] = "! ---- kernel metadata\n" + ksrc + "! ---- algorithm\n" + asrc + o["replay_text"]
+        return outs
+    finally:
+        shutil.rmtree(d, ignore_errors=True)
 
 
 def work(job):
@@ -120,7 +280,7 @@ def work(job):
     tag = os.path.basename(alg)
     key = {"unit": "KernCallArgList vs KernStubArgList", "template": tag, "params": {"dm": dm}}
     try:
-        _, info = parse(alg, api="dynamo0.3", kernel_paths=kdirs)
+        _, info = parse(alg, api="dynamo0.3", kernel_paths=kdirs if kdirs != [TESTDIR] else None)
         psy = PSyFactory("dynamo0.3", distributed_memory=dm).create(info)
         txt = str(psy.gen)
     except Exception as e:  # pylint: disable=broad-except
@@ -138,6 +298,8 @@ def work(job):
                 continue
             f = kernel_file(k.module_name, kdirs)
             try:
+                if f is None:
+                    raise FileNotFoundError(k.module_name)
                 stubs[k.module_name] = str(gen_stub(f, api="lfric"))
             except Exception as e:  # pylint: disable=broad-except
                 bad = f"stub generator: {type(e).__name__}: {e}"[:160]
@@ -148,7 +310,7 @@ def work(job):
         text = "\n".join(stubs.values()) + "\n" + txt
         o = {"key": k2, "nontrivial": True, "h": tv.text_hash(text + inv.name), "solver_s": 0.0}
         try:
-            st, detail, nob, ss, reach = decide_invoke(text, inv.name.lower())
+            st, detail, nob, ss, reach = decide_invoke(text, inv.name.lower(), space_constraints(kerns))
         except Unsupported as e:
             st, detail, nob, ss, reach = "unsupported", "parse: " + str(e), 0, 0.0, None
         o["solver_s"], o["nqueries"], o["reach"] = ss, nob, reach or "sat"
@@ -160,10 +322,13 @@ def work(job):
             kn = ",".join(sorted(stubs))
             o["diff"] = (f"call and stub of {kn} disagree: {detail}" if st == "mismatch" else
                          f"a dummy array of the stub of {kn} can exceed its actual: {detail}")
-            o["key"] = dict(k2, params=dict(k2["params"], kind=st, kernels=kn,
+            o["key"] = dict(k2, params=dict(k2["params"], kind="mismatch" if st == "mismatch" else "extent", kernels=kn,
                                             what=re.sub(r"\d+", "N", detail)[:100]))
             o["replay_text"] = f"! {o['diff']}\n" + text
-            ok = replay(text, inv.name.lower(), st, detail)
+            if st == "mismatch":
+                ok = replay(text, inv.name.lower(), st, detail)
+            else:
+                ok = {"sat": True, "sat_norepro": False, "sat_unrep": None}[st]
             o["status"] = "sat_replayed" if ok else ("sat_not_reproduced" if ok is False else "sat_unreplayable")
         outs.append(o)
     return outs
@@ -236,12 +401,16 @@ def main():
     algs = sorted(p for p in glob.glob(os.path.join(TESTDIR, "*.f90")) if not p.endswith("_mod.f90"))
     jobs = [(a, dm, [TESTDIR]) for a in algs for dm in ((False,) if tier == "quick" else (False, True))]
     results = core.pmap(work, jobs)
+    from vlib.families import lfric_meta
+    metas = lfric_meta.gen(60 if tier == "quick" else 1200, 1)
+    results += core.pmap(work_meta, [(m, dm) for m in metas for dm in ((False,) if tier == "quick" else (False, True))])
     flat = []
     for r in results:
         flat.extend([r] if isinstance(r, tuple) else r)
     tv.aggregate(chk, flat)
     chk.cov["queries"] = sum(o.get("nqueries", 0) for o in flat if isinstance(o, dict)) or chk.cov["queries"]
-    chk.cov["bounds"] = {"algorithm_files": len(algs), "mesh": "summarised (all sizes)"}
+    chk.cov["bounds"] = {"algorithm_files": len(algs), "synthesised_metadata": len(metas),
+                         "mesh": "summarised (all sizes)"}
     chk.cov["rule"] = "case = (algorithm file of the repository's LFRic test set, invoke, distributed memory)"
     from psyclone.domain.lfric import ArgOrdering, KernCallArgList, KernStubArgList
     chk.cov["functions_encoded"] = core.src_hash(ArgOrdering.generate, KernCallArgList, KernStubArgList)
@@ -249,7 +418,11 @@ def main():
         "infrastructure contract for extents: dofmaps (ndf, .), nodes (3, ndf), boundary dofs (ndf, 2), operator "
         "local_stencil (ndf_to, ndf_from, ncell_3d), CMA matrix (bandwidth, nrow, ncell_2d), quadrature weights (np_*)",
         "kind parameters and intents are not compared; stubs have no body",
-        "metadata = the kernels invoked by the repository's LFRic test algorithm files for which both generators succeed"]
+        "metadata = the kernels invoked by the repository's LFRic test algorithm files, plus randomly drawn metadata "
+        "(scalars, fields and field vectors on every space, six stencil types, operators, basis/differential basis with "
+        "XYoZ/face/edge quadrature and evaluators; fixed seed), wherever both generators succeed; CMA operators, mesh and "
+        "reference-element properties only through the repository's files; inter-grid and domain kernels are refused by "
+        "the stub generator"]
     return chk.finish()
 
 
